@@ -306,6 +306,16 @@ def error_discipline(repo, res):
     ok_reg, found_reg = base_equivalent_in_own_registry(repo)
     res.check(ok_reg, "get_base_equivalent:result", fn.where(), "the base-equivalent unit is built in the unit's own registry (a unit system's own units live in the default registry: their scales are not the caller's after a registry edit)", "every return is Unit(..., registry=self.registry)", found_reg, rid=r3)
     default_system_resolution(repo, res, r3)
+    # in_base hands back the array unchanged only when its unit IS the system's unit for that dimension (same
+    # expression): equality of units compares scale and dimension only, so `Sv` (= J/kg), `Ba`, `psf` would stay outside
+    # the system although they are equal in value to its unit
+    from engine.sem import summarise
+
+    ibf = repo.mod(ARR).func("unyt_array.in_base")
+    res.fn(ibf)
+    unchanged = [x for x in summarise(ibf) if x.kind == "return" and x.value in ("self.copy()", "self", "self.copy(order='C')")]
+    loose = [sorted(f"{t}={tr}" for t, tr in x.facts) for x in unchanged if not any(tr and ".expr ==" in t.replace("self.units.expr ==", ".expr ==") and "units_map" in t for t, tr in x.facts)]
+    res.check(not loose, "in_base:unchanged-only-if-system-unit", ibf.where(), "in_base returns the array as it is on a path that does not establish that its unit expression is the system's unit for that dimension: a unit that is merely equal in value (Sv vs m**2/s**2, Ba vs dyn/cm**2) stays outside the unit system and disagrees with get_base_equivalent / convert_to_base", "self.units.expr == <system>.units_map[self.units.dimensions]", loose[:2], rid=r3)
     sanit = [norm(n.value) for n in walk_no_nested(fn.node) if isinstance(n, ast.Assign) and norm(n.targets[0]) == "unit_system"]
     res.check(sanit == ["_sanitize_unit_system(unit_system, self)"], "get_base_equivalent:system", fn.where(), "the unit system argument (name, object, None, 'code') is resolved by _sanitize_unit_system", found=sanit, rid=r3)
     ib = repo.mod(ARR).func("unyt_array.in_base")
@@ -377,4 +387,5 @@ MUTANTS = [
     Mutant("default-system-from-missing-attribute", REG, "_sanitize_unit_system", "        try:\n            unit_system = obj.units.registry.unit_system\n        except AttributeError:\n            unit_system = mks_unit_system", "        registry = getattr(obj, \"registry\", None)\n        unit_system = getattr(registry, \"unit_system\", mks_unit_system)", ("C10-R3",)),
     Mutant("default-system-getattr-chain", REG, "_sanitize_unit_system", "        try:\n            unit_system = obj.units.registry.unit_system\n        except AttributeError:\n            unit_system = mks_unit_system", "        units = getattr(obj, \"units\", None)\n        registry = getattr(units, \"registry\", None)\n        unit_system = getattr(registry, \"unit_system\", mks_unit_system)", (), benign=True),
     Mutant("em-one-direction-changed", UO, None, '        "statV",\n        1.0e-8 * speed_of_light_cm_per_s,', '        "statV",\n        1.0e8 / speed_of_light_cm_per_s,', ("C10-R5",)),
+    Mutant("in-base-unchanged-on-equal-value", ARR, "unyt_array.in_base", "            to_units = self.units.get_base_equivalent(unit_system)\n", "            to_units = self.units.get_base_equivalent(unit_system)\n            if to_units == self.units:\n                return self.copy()\n", ("C10-R3",)),
 ]
